@@ -249,3 +249,66 @@ func (c18) Class(e Ev) string {
 	}
 	return fmt.Sprintf("readfrom/%s/%s/%s/%s", GS(e["adapter"]), GS(e["via"]), b, GS(e["err"]))
 }
+
+// ---- B2: every reader script of the bounded model (Gen_C18, PS = 4) replayed on the real ReadFrom ----
+
+func (c18) Table(rows []Ev, tier string, seed int64, rep *TableReport) {
+	const scale = 47 // one abstract byte = 47 real bytes; 4 abstract bytes = one 188-byte packet
+	expand := func(v interface{}) []byte {
+		var out []byte
+		for _, a := range GIs(v) {
+			for k := 0; k < scale; k++ {
+				out = append(out, byte(a*16+k%16))
+			}
+		}
+		return out
+	}
+	for ri, row := range rows {
+		sr := &scriptReader{}
+		for _, x := range toList(row["script"]) {
+			m := asMap(x)
+			sr.steps = append(sr.steps, struct {
+				data []byte
+				err  string
+			}{expand(m["data"]), GS(m["err"])})
+		}
+		w := &recWriter{failAt: GI(row["fail_at"])}
+		_, rf := c18Adapter(c18Adapters[ri%4], w)
+		var n int64
+		var err error
+		pan := guard(func() { n, err = rf.ReadFrom(sr) })
+		var want [][]byte
+		for _, c := range toList(row["calls"]) {
+			want = append(want, expand(c))
+		}
+		reason := ""
+		switch {
+		case pan != "":
+			reason = "replay-" + pan
+		case len(w.calls) != len(want):
+			reason = "replay-delivery-count"
+		case c18Err(err) != GS(row["err"]):
+			reason = fmt.Sprintf("replay-result-%s-expected-got-%s", GS(row["err"]), c18Err(err))
+		case int(n) != GI(row["n"])*scale:
+			reason = "replay-byte-count"
+		}
+		if reason == "" {
+			for i := range want {
+				if !bytes.Equal(want[i], w.calls[i]) {
+					reason = "replay-delivery-bytes"
+				}
+			}
+		}
+		rep.Compared++
+		rep.Classes[fmt.Sprintf("replay/%s/results%d", GS(row["err"]), minInt(len(toList(row["script"])), 4))]++
+		if reason != "" && len(rep.Mismatches) < 50 {
+			rep.Mismatches = append(rep.Mismatches, Ev{"op": "script", "reason": reason, "script": row["script"], "fail_at": row["fail_at"],
+				"want_err": row["err"], "got_err": c18Err(err), "got_n": int(n), "got_calls": len(w.calls)})
+		}
+	}
+	rep.Exhaustive = true
+	rep.Note = "every reader script of the bounded model (fragmentations of <= 9 abstract bytes, chunks <= 5, EOF/failure on any result) x failing write position 0..3, abstract byte = 47 real bytes"
+	if len(rows) > 0 {
+		rep.Samples = []Ev{{"script": rows[len(rows)/2]["script"], "fail_at": rows[len(rows)/2]["fail_at"], "expect": rows[len(rows)/2]["err"]}}
+	}
+}
